@@ -1,5 +1,6 @@
 import McpModel.Base.Proto
 import McpModel.TypedTool.Monitor
+import McpModel.TypedTool.HandlerSet
 /-!
 Driver for E12 TypedTool (C16).
 
@@ -551,6 +552,43 @@ def engine : Engine MState where
         match (parseCallEv rest) >>= mkCall td with
         | none => (d, { model := "bad-op" })
         | some ci =>
+          -- a handler that sets IsError / StructuredContent itself in the result it returns (HandlerSet.lean)
+          let hsetTok := getKV rest "hsc"
+          let hset : Option HSet :=
+            match hsetTok with
+            | none | some "-" => some { isError := getKV rest "hise" == some "1", sc := none }
+            | some t => (parseXJson t).map fun j => { isError := getKV rest "hise" == some "1", sc := some j }
+          match hset with
+          | none => (d, { model := "bad-op" })
+          | some hx =>
+          if hx.isError || hx.sc.isSome then
+            let out := modelCallX td ci.h (fun _ => hx) ci.args
+            let served := deliver (supportsMultiRoundTrip Generated.TypedTool.multiRoundTripSince d.ver) out
+            let model := renderServed served (showLib (libIn td ci)) "-"
+            -- the reference validator's verdict on the output that is validated (the typed output, else the
+            -- handler's own structured content, else null), on exact numbers: the library-discrepancy filter
+            let effJ : Option JVal := match (ci.h .null).out with
+              | .nilAny => if td.osch.isSome then
+                  (match hx.sc with | some j => some j | none => if hx.isError then none else some .null) else none
+              | .nilPtr => td.tool.elemZero
+              | .json j => ci.hout <|> some j
+            let refO : Option Bool := match out.seen, (ci.h .null).err, effJ, td.osch with
+              | some _, none, some j, some s => some (valid s (outForm idEnv td.tool s j).1)
+              | _, _, _, _ => none
+            let model := renderServed served (showLib (libIn td ci)) (showLib refO)
+            match parseObs impl with
+            | none => (d, { model := model })
+            | some (o, l, ol) =>
+              if disc l (libIn td ci) then
+                (d, { model := impl, violated := some (Clause.text (.libIn (l.getD false) ((libIn td ci).getD false))) })
+              else if disc ol refO then
+                (d, { model := impl, violated := some (Clause.text (.libOut (ol.getD false) (refO.getD false))) })
+              else if judgeX td.osch o then
+                (d, { model := model, violated := some "C16: structured_valid: the answer carries structured content that is not valid under the tool's output schema (content the handler set itself in the result it returned: it is the tool's output and must be validated like the typed output)" })
+              else if judgeXText td.osch (ci.h .null).content o then
+                (d, { model := model, violated := some "C16: text_fallback_iff_no_content: structured content under a declared output schema, the handler supplied no content of its own, and the content is not the text rendering of the structured content (structured content the handler set itself in the result it returned)" })
+              else (d, { model := model })
+          else
           -- what a peer at the session's protocol version is answered: the wrapper, then the dispatcher
           let served := modelServe d.ver td ci
           let rep := served.out
